@@ -134,6 +134,15 @@ func (x *Exec) generate(fn *ssa.Function) {
 		if panicked {
 			if c == nil || !c.MayPanic {
 				x.obligeAt(fr, st2, "panic", st2.panicWhat, st2.panicPos, False, "")
+			} else if c.PanicCond != nil {
+				// `maypanic e`: every panic exit comes from an entry state satisfying e
+				ce := &CEnv{x: x, st: fr.entry, old: fr.entry, vars: env, pkg: pkg, fr: fr, entryAllocW: fr.entry.allocW}
+				t, err := ce.evalBool(c.PanicCond)
+				if err != nil {
+					x.fail("%s maypanic %q: %v", funcName(fn), c.PanicCond.Text, err)
+					return
+				}
+				x.obligeAt(fr, st2, "panic", st2.panicWhat+" only when "+c.PanicCond.Text, st2.panicPos, t, "")
 			}
 			return
 		}
